@@ -519,6 +519,7 @@ class Outcome:
         self.throws = set()    # throw / noreturn-call node ids that end a path
         self.returned = []     # (return node id, FS): the failed value itself is returned to the caller
         self.swallowed = []    # handlers of this function entered by a throw on a failure path
+        self.stopped = {}      # stop_at element id -> [(env, facts)] with which a path arrived there
         self.truncated = False
 
     @property
@@ -651,6 +652,7 @@ def explore(fn, start, env, site=None, fb=None, depth=0, memo=None, limit=20000,
                 stop = True
                 break
             if e in stop_at:
+                out.stopped.setdefault(e, []).append((dict(env), dict(facts)))
                 stop = True
                 break
             out.reached.add(e)
@@ -850,8 +852,26 @@ def closure_fns(fb, roots, depth=12):
     return list(seen.values())
 
 
-def check_site(fb, fn, call, conv):
-    """-> (verdict, message) with verdict in 'ok' | 'dropped' | 'returned' | 'unknown'."""
+def callers_of(fb, fn):
+    """[(function body, call node)] of every resolved call to fn in the fact base (one per source site)."""
+    out = []
+    seen = set()
+    for g in fb.functions:
+        if not g.has_cfg:
+            continue
+        for n in g.all_nodes():
+            if n.get('k') == 'call' and n.get('u') == fn.usr:
+                k = (g.pat, n.get('o'))
+                if k not in seen:
+                    seen.add(k)
+                    out.append((g, n))
+    return out
+
+
+def check_site(fb, fn, call, conv, depth=0):
+    """-> (verdict, message, Outcome) with verdict in 'ok' | 'dropped' | 'returned' | 'unknown'.
+    A function that hands the failure value back unchanged (thin wrapper around the C call) is treated as carrying the
+    same convention: every one of its call sites is then checked in turn ("a value that every caller tests")."""
     o, problems = fail_outcome(fb, fn, call, conv)
     if o is None:
         return 'unknown', '; '.join(problems), None
@@ -862,7 +882,16 @@ def check_site(fb, fn, call, conv):
         return 'dropped', ('if %s fails (%s) the function can still return normally: %s'
                            % (conv.name, conv.describe(), describe(fn, w))), o
     if o.returned:
-        return 'returned', 'the failure value of %s is returned to the caller untested' % conv.name, o
+        sets = {fs for (_n, fs) in o.returned}
+        callers = callers_of(fb, fn) if depth < 2 and len(sets) == 1 else []
+        if not callers:
+            return 'returned', 'the failure value of %s is returned to the caller untested' % conv.name, o
+        wrapped = Conv('%s (via %s)' % (conv.name, fn.name), [('ret', next(iter(sets)))])
+        for (g, c) in callers:
+            v, msg, _o = check_site(fb, g, c, wrapped, depth + 1)
+            if v != 'ok':
+                return v, 'in caller %s: %s' % (g.q, msg), o
+        return 'ok', 'the failure value is returned and every caller of %s tests it' % fn.q, o
     if not o.throws and not o.retry:
         return 'unknown', 'no path from the call reaches a throw or an exit', o
     return 'ok', 'every failure path ends in %s' % ('a throw' + (' or retries the call' if o.retry else '')), o
